@@ -3,6 +3,7 @@ from __future__ import annotations
 
 from fractions import Fraction as F
 
+import sys
 import numpy as np
 import pandas as pd
 import xarray as xr
@@ -207,3 +208,9 @@ def run(ctx):
         rec.case("accessor", case, nontrivial=why is None, cls=["kind:" + case["kind"], "dims:" + "/".join(case["dims"])])
 
     ctx.given("accessor", tcase(60, accessor=True), ctx.n(400, 4000), fn=f_a)
+
+
+from harness import history as _history  # noqa: E402
+
+_history.install(sys.modules[__name__], {"whitint": _history.q_whitint}, {"whitint": _history.WHITINT_ARGS}, n=(100, 1200), dtypes=("int16",),
+                 attr_values=(-3000, 0), cells=st.integers(100, 3000), nt=(4, 10))
